@@ -341,7 +341,7 @@ def main():
             level_note=COMMON_NOTE + c["note"], technique=c["technique"]))
     m["not_applicable"] = [dict(property_id=p, reason=PENDING_REASON) for p in ALL if p not in CHECKS]
     m["notes"] = ("see DESIGN.md (section 13 records what was built per property); known findings: known_findings.json; seeded changes: "
-                  "seeded/ (RESULTS.json: 138 of 138 caught). Supporting checks that are not properties of their own: ./check MECH "
+                  "seeded/ (RESULTS.json: 149 of 149 caught). Supporting checks that are not properties of their own: ./check MECH "
                   "(mechanism theorems of coq/limiter + source-shape tie), ./check GLUE (31 cross-model composition theorems), ./check GEN "
                   "(gen_accepted: for every well-formed non-empty shape and every oracle the engine automaton accepts a complete released "
                   "trace, so the C01-C08 theorems are not vacuous; generator = real sequential engine runs), python3 lib/props/smgraph.py "
